@@ -21,7 +21,7 @@ model of C14 (`Q1t.Expr.parse`).  The driver instantiates `F = Float` with an ex
 
 Known wrong behaviour that is reproduced on purpose (DESIGN §1 D12 and the C12 report): the default
 `conditional_c_qasm` prefixes only the first line of a multi-line translation; `U2`/`U3` templates without a
-comma / with a stray `; `; `CRY` writes `-{…}` (so `--x` for a negative angle); `measure_all` in X/Y is not
+comma / with a stray `; `; `measure_all` in X/Y is not
 rotated back; an empty control list is exported unconditionally; reference parameters print their name (and are
 then left inside unevaluated `{…}` holes); `CH CRZ CU2 CV CVdg` print a lower-cased struct name that is not a
 cQASM instruction; `Kron` wraps multi-line / empty / bundle texts into `{ … | … }`.
